@@ -84,16 +84,21 @@ impl Prop for C16 {
         }
     }
     fn required_probes(&self, _tier: Tier) -> Vec<&'static str> {
-        vec!["payload_pushdata1", "payload_pushdata2", "payload_pushdata4", "payload_76_80", "invalid_utf8_payload", "empty_payload", "multibyte_utf8_line", "sub_range_run", "lines_before_a_failing_block", "witness_commitment_payload_fork_coin"]
+        vec!["payload_pushdata1", "payload_pushdata2", "payload_pushdata4", "payload_76_80", "invalid_utf8_payload", "empty_payload", "multibyte_utf8_line", "sub_range_run", "lines_before_a_failing_block", "witness_commitment_payload_fork_coin", "same_txid_processed_twice", "block_with_64_plus_txs"]
     }
     fn explore(&self, item: u64, rng: &mut Rng, _tier: Tier, h: &mut Harness) -> Result<(), String> {
         let coin = COINS[(item % 8) as usize];
         let mut scn = new_scenario("C16", "opreturn", coin);
         let nb = rng.usize(1, 8);
+        let wide_blocks = rng.chance(1, 8);
         let mut seen_payloads: Vec<Vec<u8>> = Vec::new();
         for i in 0..nb {
             let mut txs = vec![];
-            for k in 0..rng.usize(1, 4) {
+            // now and then a block as wide as real ones (the per-block work is split across workers), every
+            // transaction with several payloads
+            let wide = wide_blocks && i == nb / 2;
+            let n_txs = if wide { rng.usize(64, 400) } else { rng.usize(1, 4) };
+            for k in 0..n_txs {
                 let mut outputs = vec![];
                 for _ in 0..rng.usize(1, 6) {
                     let script = match rng.below(8) {
@@ -191,11 +196,31 @@ impl Prop for C16 {
                 txs,
             });
         }
+        // byte-identical transactions processed twice (same txid): the coinbase of an earlier block again as
+        // the coinbase of a later one, or a transaction repeated inside its block — every processed output prints
+        if nb >= 2 && rng.chance(1, 5) {
+            let (a, b) = (rng.usize(0, nb - 2), nb - 1);
+            let cb = scn.chain[a].txs[0].clone();
+            scn.chain[b].txs[0] = cb;
+            h.stats.probe("same_txid_processed_twice");
+        }
+        if rng.chance(1, 8) {
+            let bi = rng.usize(0, nb - 1);
+            if scn.chain[bi].txs.len() >= 2 {
+                let k = rng.usize(1, scn.chain[bi].txs.len() - 1);
+                let dup = scn.chain[bi].txs[k].clone();
+                scn.chain[bi].txs.push(dup);
+                h.stats.probe("same_txid_processed_twice");
+            }
+        }
+        if wide_blocks {
+            h.stats.probe("block_with_64_plus_txs");
+        }
         scn.layouts = vec![random_layout(nb, 2, false, rng)];
         scn.index = index_opts(rng);
         let t = nb as u64 - 1;
         let mut r = RunSpec::new("opreturn");
-        r.threads = pick_threads(rng);
+        r.threads = if wide_blocks { *rng.pick(&[8usize, 16, 64]) } else { pick_threads(rng) };
         r.plan = benign_plan(rng);
         // where stdout points must not matter: sometimes a pseudo-terminal instead of a file
         r.tty = rng.chance(1, 5);
